@@ -39,6 +39,8 @@ impl<'a> UnixSendTo<'a> {
 
             // clear the io_flag
             self.io_data.io_flag.store(0, Ordering::Relaxed);
+            #[cfg(may_verif)]
+            crate::verif::syscall();
 
             match self.socket.send_to(self.buf, self.path) {
                 Ok(n) => return Ok(n),
